@@ -48,6 +48,9 @@
          | (4 half victim perm) Commit while ONE SQL statement inside SetWithLog of heads/<victim>
            fails (half 0: the reflogs insert, 1: the refs upsert; SQLite trigger below the
            ref.Store method), or (half 2) the UPDATE of the transactions row (status flip) fails
+         | (6 b t) an ORDINARY commit (table t, no transaction id) lands on branch b - another writer
+           between an interrupted Commit and its re-run: the re-run must leave it the head
+           (newobjs is 9 from then on: the other writer's objects are not the transaction's)
          | (5 half victim perm) Discard while the DELETE of the staged ref of <victim> (half 0) or
            of the transactions row (half 1) fails; after half 0, while the transaction is still
            in progress, nrefs is 9 and snap is () (how many refs went first is the store's order).  Model: SetWithLog is atomic ([run_setwithlog_fault]).  How many
@@ -525,7 +528,7 @@ Definition todo_count (s0 : state) : nat :=
   length (filter (fun e => match tx_log_new ID_ME (logs s0 (fst e)) with None => true | Some _ => false end)
                  (staged s0 ID_ME)).
 
-Definition observe (k : nat) (s0 s : state) (masked amb tamb damb : bool) (r : res) : tree :=
+Definition observe (k : nat) (s0 s : state) (masked amb tamb damb wamb : bool) (r : res) : tree :=
   let mv := moved_count k s0 s in
   let nst := todo_count s0 in
   let nrefs := length (staged s0 ID_ME) in
@@ -534,7 +537,7 @@ Definition observe (k : nat) (s0 s : state) (masked amb tamb damb : bool) (r : r
   let dpart := (damb && match txs s ID_ME with Some InProgress => true | _ => false end)%bool in
   Node [ t_res masked r;
          Node [if (tamb && part)%bool then Leaf 9 else t_nat mv;
-               if ((amb || tamb) && part)%bool then Leaf 9 else t_nat (newobj_count s0 s);
+               if ((amb || tamb) && part || wamb)%bool then Leaf 9 else t_nat (newobj_count s0 s);
                t_status (txs s ID_ME);
                if dpart then Leaf 9 else t_nat sc];
          if ((Nat.eqb mv 0 && negb tamb || Nat.eqb mv nst) && (Nat.eqb sc 0 || Nat.eqb sc nrefs) && negb dpart)%bool
@@ -544,7 +547,8 @@ Inductive sop :=
 | SCommitF (mode : N) (n : nat) (perm : list N) | SCommit (perm : list N)
 | SDiscardF (mode : N) (n : nat) (perm : list N) | SDiscard (perm : list N)
 | SCommitT (half : N) (victim : branch) (perm : list N)
-| SDiscardT (half : N) (victim : branch) (perm : list N).
+| SDiscardT (half : N) (victim : branch) (perm : list N)
+| SPlain (b : branch) (t : N).
 Definition d_sop (t : tree) : sop :=
   match N.to_nat (d_N (d_nth 0 t)) with
   | 0%nat => SCommitF (d_N (d_nth 1 t)) (d_nat (d_nth 2 t)) (d_list d_N (d_nth 3 t))
@@ -552,10 +556,11 @@ Definition d_sop (t : tree) : sop :=
   | 2%nat => SDiscardF (d_N (d_nth 1 t)) (d_nat (d_nth 2 t)) (d_list d_N (d_nth 3 t))
   | 3%nat => SDiscard (d_list d_N (d_nth 1 t))
   | 4%nat => SCommitT (d_N (d_nth 1 t)) (d_N (d_nth 2 t)) (d_list d_N (d_nth 3 t))
-  | _ => SDiscardT (d_N (d_nth 1 t)) (d_N (d_nth 2 t)) (d_list d_N (d_nth 3 t))
+  | 5%nat => SDiscardT (d_N (d_nth 1 t)) (d_N (d_nth 2 t)) (d_list d_N (d_nth 3 t))
+  | _ => SPlain (d_N (d_nth 1 t)) (d_N (d_nth 2 t))
   end.
 
-Fixpoint run_script (k : nat) (s0 s : state) (masked tamb damb : bool) (nf : nat) (ops : list sop) : list tree :=
+Fixpoint run_script (k : nat) (s0 s : state) (masked tamb damb wamb : bool) (nf : nat) (ops : list sop) : list tree :=
   match ops with
   | [] => []
   | o :: ops' =>
@@ -563,22 +568,25 @@ Fixpoint run_script (k : nat) (s0 s : state) (masked tamb damb : bool) (nf : nat
       let nf := match o with SCommitF _ _ _ | SCommitT _ _ _ => S nf | _ => nf end in
       let tamb := match o with SCommitT h _ _ => if h =? 2 then tamb else true | _ => tamb end in
       let damb := match o with SDiscardT h _ _ => if h =? 0 then true else damb | _ => damb end in
+      let wamb := match o with SPlain _ _ => true | _ => wamb end in
       let p := match o with
                | SCommitF _ _ perm | SCommit perm | SCommitT _ _ perm => tx_commit (ord_by perm) ID_ME s
                | SDiscardF _ _ perm | SDiscard perm | SDiscardT _ _ perm => tx_discard (ord_by perm) ID_ME s
+               | SPlain _ _ => ([], ROk)
                end in
       if mode2 then
         (* a failing read: not predicted; the model continues from "nothing happened",
            which by C14_all_or_completable gives the same state after the next clean run *)
-        Node [Leaf 3] :: run_script k s0 s true tamb damb nf ops'
+        Node [Leaf 3] :: run_script k s0 s true tamb damb wamb nf ops'
       else
         let '(s', r) := match o with
                         | SCommitF _ n _ | SDiscardF _ n _ => run_upto n p s
                         | SCommitT h v _ => run_write_fault (if h =? 2 then is_updtx else is_swl v) p s
                         | SDiscardT h v _ => run_write_fault (if h =? 0 then is_delstaged v else is_deltx) p s
+                        | SPlain b t => (plain_commit b t s, ROk)
                         | _ => run_full p s
                         end in
-        observe k s0 s' masked (2 <=? nf)%nat tamb damb r :: run_script k s0 s' masked tamb damb nf ops'
+        observe k s0 s' masked (2 <=? nf)%nat tamb damb wamb r :: run_script k s0 s' masked tamb damb wamb nf ops'
   end.
 
 Definition run_C14 (c : tree) : tree :=
@@ -586,4 +594,4 @@ Definition run_C14 (c : tree) : tree :=
   let bs := d_list d_bspec (d_nth 1 c) in
   let ops := d_list d_sop (d_nth 2 c) in
   let s0 := setup flags bs in
-  Node (run_script (length bs) s0 s0 false false false 0 ops).
+  Node (run_script (length bs) s0 s0 false false false false 0 ops).
